@@ -47,6 +47,25 @@ func fresh(x any) bool                           { return true }
 //@   props C14 C11
 //@   ensures [fresh@C14] result != nil && fresh(result) && !result.generateSourceMap && !result.prettyPrint
 
+// Every call of WithPrettyPrint starts from the default options: what an earlier configuration of the same compiler set
+// does not leak into the next one (the options callbacks are applied to the defaults, in order). The callbacks write
+// through a pointer into the compiler's own options struct, which a modifies clause cannot name: the frame is left open
+// here (no verified function calls WithPrettyPrint).
+func slotOption(o *PrettyPrintOptions) {}
+
+//@ func slotOption(o)
+//@   props C14 C06
+//@   abstract
+//@   modifies o.IndentString, o.WriteSemicolons
+
+//@ func (c *Compiler) WithPrettyPrint(opts)
+//@   props C14 C06 C11
+//@   funcvar opt compiler.slotOption
+//@   requires [c] c != nil
+//@   modifies *
+//@   loop 1 invariant [defaults@C14,C06] c.prettyPrint && atEntry(c.prettyPrintOptions.IndentString) == "  " && atEntry(c.prettyPrintOptions.WriteSemicolons)
+//@   ensures [on@C14,C06] c.prettyPrint && result == c
+
 //@ func (c *Compiler) WithSourceMap()
 //@   props C14 C08 C11
 //@   modifies c.generateSourceMap
